@@ -2,6 +2,7 @@
 
 ROI = "odc/geo/roi.py"
 MATH = "odc/geo/math.py"
+OVERLAP = "odc/geo/overlap.py"
 
 MODULES = [
     {
@@ -32,6 +33,27 @@ MODULES = [
              "genexp": {"index": 1, "count": 2, "vars": [("s", "NS"), ("dim", "Z")]}},
             {"file": ROI, "py": "scaled_down_shape", "g": "g_scaled_down_dim", "params": [("s", "Z"), ("scale", "Z")], "ret": "Z",
              "genexp": {"index": 0, "count": 1, "vars": [("s", "Z")]}},
+        ],
+    },
+    {
+        "out": "Gen/MathGen.v",
+        "props": ["C20", "C08", "C03", "C10"],
+        "items": [
+            {"file": MATH, "py": "maybe_zero", "g": "g_maybe_zero", "params": [("x", "Q"), ("tol", "Q")], "ret": "Q"},
+            {"file": MATH, "py": "split_float", "g": "g_split_float", "params": [("x", "Q")], "ret": ("T", "Q", "Q")},
+            {"file": MATH, "py": "maybe_int", "g": "g_maybe_int", "params": [("x", "Q"), ("tol", "Q")], "ret": "Q"},
+            {"file": MATH, "py": "is_almost_int", "g": "g_is_almost_int", "params": [("x", "Q"), ("tol", "Q")], "ret": "B"},
+            {"file": MATH, "py": "_snap_edge_pos", "g": "g_snap_edge_pos",
+             "params": [("x0", "Q"), ("x1", "Q"), ("res", "Q"), ("tol", "Q")], "ret": ("T", "Q", "Z"), "raises": True},
+            {"file": MATH, "py": "_snap_edge", "g": "g_snap_edge",
+             "params": [("x0", "Q"), ("x1", "Q"), ("res", "Q"), ("tol", "Q")], "ret": ("T", "Q", "Z"), "raises": True},
+            {"file": MATH, "py": "snap_grid", "g": "g_snap_grid",
+             "params": [("x0", "Q"), ("x1", "Q"), ("res", "Q"), ("off_pix", "OQ"), ("tol", "Q")],
+             "ret": ("T", "Q", "Z"), "raises": True},
+            {"file": OVERLAP, "py": "compute_axis_overlap", "g": "g_compute_axis_overlap",
+             "params": [("Ns", "Z"), ("Nd", "Z"), ("s", "Q"), ("t", "Q")], "ret": ("T", "NS", "NS"), "raises": True},
+            {"file": OVERLAP, "py": "_pick_read_scale", "g": "g_pick_read_scale",
+             "params": [("scale", "Q"), ("tol", "Q")], "ret": "Z", "raises": True},
         ],
     },
 ]
